@@ -279,6 +279,19 @@ def check_group_fields(arg):
         if p_.note != "keep me" or p_.port_nr is not True or p_.sequence != 10 or p_.platform != platform:
             bad("attributes", f"piece {p_.line!r}: note={p_.note!r} port_nr={p_.port_nr} sequence={p_.sequence} platform={p_.platform}")
             break
+    # second use of the same entry: what the text does not show is changed (members of the source group replaced, other note), then it is split again
+    other = [cisco_acl.Address(m, platform=platform) for m in sc.GROUPS[platform]["G2"]]
+    ace.srcaddr.items = other
+    ace.note = "changed"
+    want_src = sorted(m.line for m in other)
+    for p_ in ace.ungroup_ports():
+        if sorted(m.line for m in p_.srcaddr.items) != want_src or sorted(m.line for m in p_.dstaddr.items) != want_dst:
+            bad("members-after-edit", f"second split after the members of the source group were replaced: piece {p_.line!r} carries {[m.line for m in p_.srcaddr.items]} / "
+                                      f"{[m.line for m in p_.dstaddr.items]}, the entry has {want_src} / {want_dst}")
+            break
+        if p_.note != "changed":
+            bad("attributes-after-edit", f"second split after the note was changed: piece {p_.line!r} has note={p_.note!r}")
+            break
     return fails, 1
 
 
